@@ -64,6 +64,7 @@ type c22Step struct {
 	Cwd  int    `json:"cwd"`            // working directory during the step
 	Spec string `json:"spec,omitempty"`
 	Ref  int    `json:"ref,omitempty"` // lazy: selects an earlier successful alias
+	CdIn bool   `json:"cd_in,omitempty"` // non-file use: the code itself changes to Cwd (cd ...; use ...), the step starts in another directory
 }
 
 type c22Case struct {
@@ -545,6 +546,14 @@ func c22Check(c c22Case) error {
 		case "use":
 			alias := fmt.Sprintf("a%d", i)
 			var sb strings.Builder
+			if st.CdIn && !st.File {
+				// the working directory that counts is the one at the time of the
+				// import, not the one the chunk was compiled in
+				if err := os.Chdir(filepath.Join(root, c22Dirs[(st.Cwd+3)%len(c22Dirs)])); err != nil {
+					return nil
+				}
+				sb.WriteString("cd '" + filepath.Join(root, c22Dirs[st.Cwd]) + "'\n")
+			}
 			c22UseCode(&sb, c22Use{Spec: st.Spec}, alias, fmt.Sprintf("s%d 0 top", i), "")
 			code = sb.String()
 		case "lazy":
@@ -701,6 +710,9 @@ func c22Gen(t *rapid.T) c22Case {
 			continue
 		}
 		st.File = rapid.Bool().Draw(t, "file")
+		if !st.File {
+			st.CdIn = rapid.IntRange(0, 2).Draw(t, "cdin") == 0
+		}
 		from := st.Cwd
 		if st.File {
 			from = st.Dir
